@@ -41,7 +41,9 @@ Record ecfg := {
   ec_allow : allow_act;
   ec_ct_invalid : bool;            (* !DisableConntrackInvalid *)
   ec_block_vxlan : option N;       (* Some VXLANPort when !allowVXLANEncap *)
-  ec_block_ipip : bool             (* !allowIPIPEncap *)
+  ec_block_ipip : bool;            (* !allowIPIPEncap *)
+  ec_profile_fix : bool            (* tree has fixes/C09-profile-pass-mark.patch: profile chains that contain a Pass
+                                      rule start by clearing the pass mark (probed from the tree by the driver) *)
 }.
 
 (* ------------------------------------------------------------------ policy / profile chains *)
@@ -53,6 +55,12 @@ Definition policy_body (c : cfg) (v : ipver) (rules : list rule) : list irule :=
   | [] => [mk [] ANone]
   | l => l
   end.
+
+(* ProfileToIptablesChains.  With the fix, a profile chain holding a Pass rule first clears the pass mark. *)
+Definition is_pass_action (a : action) : bool := match a with Pass => true | _ => false end.
+Definition has_pass_rule (rules : list rule) : bool := existsb (fun r => is_pass_action (r_action r)) rules.
+Definition profile_body (fx : bool) (c : cfg) (v : ipver) (rules : list rule) : list irule :=
+  (if fx && has_pass_rule rules then [mk [] (AClearMark (c_pass c))] else []) ++ policy_body c v rules.
 
 (* ------------------------------------------------------------------ groups *)
 Definition nonstaged (ps : list mpolicy) : list mpolicy := filter (fun q => negb (mp_staged q)) ps.
@@ -152,12 +160,12 @@ Definition policy_chains (c : cfg) (v : ipver) (tiers : list mtier) : chains :=
   map (fun q => (mp_name q, policy_body c v (mp_rules q))) (nonstaged (all_policies tiers)).
 Definition group_chains (c : cfg) (tiers : list mtier) : chains :=
   map (fun g => (g_name g, group_body c (g_pols g))) (filter (fun g => negb (should_inline g)) (all_groups tiers)).
-Definition profile_chains (c : cfg) (v : ipver) (profiles : list mprofile) : chains :=
-  map (fun pf => (pf_name pf, policy_body c v (pf_rules pf))) profiles.
+Definition profile_chains (fx : bool) (c : cfg) (v : ipver) (profiles : list mprofile) : chains :=
+  map (fun pf => (pf_name pf, profile_body fx c v (pf_rules pf))) profiles.
 
 (* endpoint chain first, then what it (transitively) jumps to *)
 Definition render_endpoint (ec : ecfg) (c : cfg) (v : ipver) (name : string)
            (tiers : list mtier) (profiles : list mprofile) : chains :=
   (name, endpoint_rules ec c tiers profiles)
-  :: policy_chains c v tiers ++ group_chains c tiers ++ profile_chains c v profiles
+  :: policy_chains c v tiers ++ group_chains c tiers ++ profile_chains (ec_profile_fix ec) c v profiles
   ++ (match ec_failsafe ec with Some f => [(f, [])] | None => [] end).   (* failsafe chain: no failsafe ports configured *)
